@@ -66,26 +66,28 @@ structure XStream where
   data : Bytes
   deriving Repr
 
-def XStream.entlen (x : XStream) : Nat := x.fl1 + x.fl2 + x.fl3
+def XStream.entlen (x : XStream) : Nat := entlenOf x.fl1 x.fl2 x.fl3
 
 /-- Python slice `d[off : off+len]`. -/
 def slice (d : Bytes) (off len : Nat) : Bytes := (d.drop off).take len
 
-/-- The `for start, nobjs in self.ranges` loop of `get_pos`: running row index of `n`. -/
+/-- The `for start, nobjs in self.ranges` loop of `get_pos`: running row index of `n` (range test and
+both `index +=` updates are the regenerated `inRange` / `indexHit` / `indexMiss`). -/
 def findIndex : List (Nat × Nat) → Nat → Nat → Option Nat
   | [], _, _ => none
   | (s, c) :: rest, n, acc =>
-    if s ≤ n ∧ n < s + c then some (acc + (n - s)) else findIndex rest n (acc + c)
+    if inRange s c n then some (indexHit acc s c n) else findIndex rest n (indexMiss acc s c n)
 
 /-- Decode row `i` as `get_pos` does: `(f1, f2, f3)` with the `nunpack` defaults. -/
 def XStream.row (x : XStream) (i : Nat) : Nat × Nat × Nat :=
-  let ent := slice x.data (x.entlen * i) x.entlen
-  (nunpack (ent.take x.fl1) typeDefault, nunpack ((ent.drop x.fl1).take x.fl2) field2Default,
-   nunpack (ent.drop (x.fl1 + x.fl2)) field3Default)
+  let ent := rowBytes x.data (rowOffset x.entlen i) x.entlen
+  (nunpack (field1 ent x.fl1 x.fl2 x.fl3) typeDefault, nunpack (field2 ent x.fl1 x.fl2 x.fl3) field2Default,
+   nunpack (field3 ent x.fl1 x.fl2 x.fl3) field3Default)
 
 /-- The type field of row `i` as `get_objids` decodes it (its own `nunpack` call). -/
 def XStream.rowType (x : XStream) (i : Nat) : Nat :=
-  nunpack ((slice x.data (x.entlen * i) x.entlen).take x.fl1) objidsTypeDefault
+  nunpack (objidsField1 (objidsRowBytes x.data (objidsRowOffset x.entlen i) x.entlen) x.fl1 x.fl2 x.fl3)
+    objidsTypeDefault
 
 /-- The generated `if f1 == …` chain packaged as an `Entry`. -/
 def rowEntry (r : Nat × Nat × Nat) : Option Entry :=
@@ -93,7 +95,7 @@ def rowEntry (r : Nat × Nat × Nat) : Option Entry :=
 
 /-- `PDFXRefStream.get_pos`; `none` = `PDFKeyError`. -/
 def XStream.getPos (x : XStream) (n : Nat) : Option Entry :=
-  match findIndex x.ranges n 0 with
+  match findIndex x.ranges n indexStart with
   | none => none
   | some i => rowEntry (x.row i)
 
@@ -105,7 +107,7 @@ def objidsAux (x : XStream) : List (Nat × Nat) → Nat → List Nat
   | [], _ => []
   | (s, c) :: rest, idx =>
     ((List.range c).filterMap (fun i =>
-        if rowInData (x.entlen * (idx + i)) x.data.length && inUseType (x.rowType (idx + i)) then some (s + i) else none))
+        if rowInData (objidsRowOffset x.entlen (idx + i)) x.data.length && inUseType (x.rowType (idx + i)) then some (s + i) else none))
       ++ objidsAux x rest (idx + c)
 
 def XStream.getObjids (x : XStream) : List Nat := objidsAux x x.ranges 0
@@ -184,6 +186,9 @@ def insertOff (offs : List (Int × Entry)) (k : Int) (e : Entry) : List (Int × 
   if offs.any (fun p => p.1 == k) then offs.map (fun p => if p.1 == k then (k, e) else p)
   else offs ++ [(k, e)]
 
+/-- A stored `(strmid, pos, genno)` tuple as an `Entry`. -/
+def mkEntry (t : Option Nat × Nat × Nat) : Entry := ⟨t.1, t.2.1, t.2.2⟩
+
 /-- The `for objid in range(start, start + nobjs)` loop; returns offsets, rest, position. -/
 def tableEntries : Nat → Int → Bytes → Nat → List (Int × Entry) → Except Err (List (Int × Entry) × Bytes × Nat)
   | 0, _, rest, pos, offs => .ok (offs, rest, pos)
@@ -194,15 +199,21 @@ def tableEntries : Nat → Int → Bytes → Nat → List (Int × Entry) → Exc
       let f := splitSp (strip line)
       if f.length != entryFields then .error .noValidXRef else
       match f with
-      | [p, g, u] =>
+      | [f0, f1, f2] =>
+        -- which field is the offset / generation / marker, and the stored tuple: regenerated from the source
+        let t := entryTuple f0 f1 f2
         let offs' :=
-          if u == inUseMarker then
-            match parseInt p, parseInt g with
-            | some pi, some gi => if 0 ≤ pi ∧ 0 ≤ gi then insertOff offs objid ⟨none, pi.toNat, gi.toNat⟩ else offs
+          if t.2.2 == inUseMarker then
+            match parseInt t.1, parseInt t.2.1 with
+            | some pi, some gi =>
+              if 0 ≤ pi ∧ 0 ≤ gi then insertOff offs objid (mkEntry (tableEntryOf pi.toNat gi.toNat)) else offs
             | _, _ => offs
           else offs
         tableEntries cnt (objid + 1) (rest.drop k) (pos + k) offs'
       | _ => .error .unmodelled      -- `(pos_b, genno_b, use_b) = f` with a field count other than 3
+
+/-- Number of iterations of `for objid in range(first, stop)` (bounds regenerated from the source). -/
+def subCount (start nobjs : Int) : Nat := (subsectionStop start nobjs - subsectionFirst start nobjs).toNat
 
 /-- `PDFXRef.load` up to (not including) the trailer: the `while True` loop over subsections.
 `rest` is the unread file from `pos`.  Returns the offsets and the position of the `trailer` line. -/
@@ -221,7 +232,7 @@ def tableLoop : Nat → Bytes → Nat → List (Int × Entry) → Except Err (Li
         | [a, b] =>
           match parseInt a, parseInt b with
           | some start, some nobjs =>
-            match tableEntries nobjs.toNat start (rest.drop k) (pos + k) offs with
+            match tableEntries (subCount start nobjs) (subsectionFirst start nobjs) (rest.drop k) (pos + k) offs with
             | .error e => .error e
             | .ok (offs', rest', pos') => tableLoop fuel rest' pos' offs'
           | _, _ => .error .noValidXRef
